@@ -306,4 +306,8 @@ qb_log_thread_stop(void)
 	(void)qb_thread_lock_destroy(logt_wthread_lock);
 	sem_destroy(&logt_print_finished);
 	sem_destroy(&logt_thread_start);
+	/* back to the initial state, the logging system may be set up again */
+	logt_wthread_lock = NULL;
+	wthread_active = QB_FALSE;
+	wthread_should_exit = QB_FALSE;
 }
